@@ -337,6 +337,24 @@ func (d dataCase) Lib() lorawan.PHYPayload {
 		mp.FPort = &p
 	}
 	mp.FRMPayload = clonePayloads(d.FRM)
+	// "nothing" comes in several shapes: nil, an empty list, a list holding one empty item
+	if len(d.Spec.FOpts) == 0 && d.Spec.FCnt%3 == 1 {
+		mp.FHDR.FOpts = []lorawan.Payload{}
+	}
+	if len(d.Spec.FRMPayload) == 0 {
+		switch d.Spec.FCnt % 4 {
+		case 1:
+			mp.FRMPayload = []lorawan.Payload{}
+		case 2:
+			if d.Spec.FPort > 0 {
+				mp.FRMPayload = []lorawan.Payload{&lorawan.DataPayload{}}
+			}
+		case 3:
+			if d.Spec.FPort > 0 {
+				mp.FRMPayload = []lorawan.Payload{&lorawan.DataPayload{Bytes: []byte{}}}
+			}
+		}
+	}
 	if len(d.Cuts) > 0 && !d.FRMIsMAC {
 		mp.FRMPayload = nil
 		prev := 0
